@@ -333,6 +333,9 @@ Definition op_of_obs (o : obs) : option op :=
   | L [I 2; I s] => Some (OpenSerial s)
   | L [I 3; I h] => Some (Close h)
   | L [I 11; I i; I s] => Some (OpenBoth i s)
+  (* every way of leaving a read transaction - rollback(), commit(), leaving its `with` block normally, by an
+     Exception or by a BaseException - is the same Close *)
+  | L [I 12; I h; I _] => Some (Close h)
   | L [I 4; I r] => Some (WBegin (r =? 1))
   | L [I 5; I k; I v] => Some (WPut k v)
   | L [I 6; I k] => Some (WDel k)
